@@ -3,8 +3,8 @@ import Skc.Model.Pipeline
 import Skc.Model.MethodClasses
 /-! Driver operations for C16.
 
-* `unames`: `{"names":[..]}` → `{"names":[..], "spec":[..], "noclash":bool, "fixed":[..]}`
-  (the loop, the closed form, the `NoSuffixClash` predicate, the candidate repair).
+* `unames`: `{"names":[..]}` → `{"names":[..], "spec":[..], "noclash":bool, "v0":[..]}`
+  (the loop as it is now, the closed form, the `NoSuffixClash` predicate, the loop before the fix).
 * `pipe-trace`: `{"steps":[STEP..], "program":[OP..]}` → `{"err":E}` | `{"trace":[..]}` | `{"len":n}` |
   `{"step":{"t":R,"e":R}}` | `{"pipe":[names..]}`.
   `STEP = {"name":s, "id":s, "kind":"t"|"d"|"p"|"x"|"td", "fail":null|n, "steps":[STEP..]}`: a transformer, a
@@ -40,7 +40,7 @@ def jErr (e : Err) : Json := obj [("err", jStr (errName e))]
 def opUNames (j : Json) : Except String Json := do
   let names ← listOf asStr (← field j "names")
   pure (obj [("names", jList jStr (uniqueNames names)), ("spec", jList jStr (uniqueNamesSpec names)),
-             ("noclash", jBool (noSuffixClash sfxStr names)), ("fixed", jList jStr (uniqueNamesFix names))])
+             ("noclash", jBool (noSuffixClash sfxStr names)), ("v0", jList jStr (uniqueNames_v0 names))])
 
 /-! ### pipelines over traces -/
 
